@@ -36,6 +36,7 @@ RULE = (
     "= payload with ';', a prefix with '/', or an error between two good deliveries; distinct = distinct case JSON."
     ' Round 5: deliveries carry QoS 0-2 and the retain flag; payloads contain VT/FF/FS-RS/NEL/LS/PS/CR; `deliver_odd` sends topics with empty or odd levels (the next read is the literal line, a transport error or the following message).'
     ' Round 6: `cancelled_read k` (reader cancelled after k loop iterations: what it did not return stays owed); BOM/NUL/backslash payloads enumerated.'
+    ' Round 7: prefix levels with regex/format/shell metacharacters; constructor failure for a legal prefix is a violation.'
 )
 ASSUMPTIONS = [
     "aiomysensors.transport.mqtt.AsyncioClient is replaced by a fake (the name the repository's tests patch); paho and the network are trusted",
@@ -106,6 +107,8 @@ class FakeClient:
         self.broker.entered += 1
         await asyncio.sleep(0)
         if self.broker.fail_connect:
+            if getattr(self.broker, "fail_connect_once", False):
+                self.broker.fail_connect = False  # only the first attempt is refused
             raise MqttError("connection refused")
         return self
 
@@ -154,7 +157,8 @@ class CountingMQTTClient(MQTTClient):
 
 def make_mqtt_for_lifecycle(fault: str) -> CountingMQTTClient:
     broker = FakeBroker()
-    broker.fail_connect = fault == "connect"
+    broker.fail_connect = fault in ("connect", "connect-once")
+    broker.fail_connect_once = fault == "connect-once"
     _patch(broker)
     client = CountingMQTTClient("broker.invalid", 1883, "gw-out", "gw-in")
     client.broker = broker  # type: ignore[attr-defined]
@@ -198,6 +202,7 @@ def _ops():
         (2, st.just(["reconnect"])),
         (2, st.just(["abandoned_read"])),
         (3, st.integers(0, 4).map(lambda k: ["cancelled_read", k])),
+        (2, _msg().map(lambda m: ["write_while_reading", m])),
     )
     return st.lists(op, min_size=0, max_size=14)
 
@@ -233,6 +238,9 @@ def enumerate_cases(tier: str):
         for in_prefix, out_prefix in ((level + "/out", level + "/in"), ("home/" + level, "home/" + level + "-in")):
             yield {"in_prefix": in_prefix, "out_prefix": out_prefix, "connect_fault": "none",
                    "ops": [["deliver", [1, 1, 1, 0, 2, "1"]], ["read"], ["echo", [12, 255, 3, 1, 9, "a;b"]], ["deliver", [255, 255, 3, 0, 3, ""]], ["reconnect"], ["deliver", [7, 255, 4, 0, 1, "ff"]], ["read"]]}
+    for ack in (0, 1):
+        yield {"in_prefix": "in", "out_prefix": "out", "connect_fault": "none",
+               "ops": [["write_while_reading", [7, 1, 1, ack, 2, "a;b"]], ["deliver", [1, 1, 1, 0, 2, "1"]], ["read"], ["write_while_reading", [7, 255, 3, ack, 9, "x"]], ["reconnect"], ["write_while_reading", [1, 1, 2, ack, 0, ""]]]}
     # a burst is queued, the reader is cancelled after k loop iterations, the next reader gets everything that was not returned
     for k in range(0, 6):
         for n in (1, 2, 3):
@@ -453,6 +461,35 @@ def run_case(case: dict) -> Outcome:
                         return fail(f"read-leak:{type(err).__name__}", f"{where}: {err!r}")
                     else:
                         return fail("read-invented-message", f"{where}: a read returned although nothing was delivered")
+            elif kind == "write_while_reading":
+                # the usual state of a listening gateway: one task waits in read() on an empty queue while another one writes
+                if expected or dead:
+                    continue
+                msg = op[1]
+                reader_task = asyncio.ensure_future(transport.read())
+                for _ in range(3):
+                    await asyncio.sleep(0)
+                before = len(broker.published)
+                try:
+                    await asyncio.wait_for(transport.write(ref_format(*msg)), 5.0)
+                except asyncio.TimeoutError:
+                    reader_task.cancel()
+                    return fail("write-blocked-by-pending-read", f"{where}: write did not complete while another task was waiting in read()")
+                except Exception as err:  # noqa: BLE001
+                    reader_task.cancel()
+                    return fail(f"write-raises:{type(err).__name__}", f"{where}: {err!r}")
+                if len(broker.published) != before + 1:
+                    reader_task.cancel()
+                    return fail("publish-count", f"{where}: {len(broker.published) - before} publishes for one write (a read was pending)")
+                broker.deliver(f"{in_prefix}/3/3/1/0/2", f"wake{idx}".encode(), 0)
+                try:
+                    got = await asyncio.wait_for(reader_task, 5.0)
+                except asyncio.TimeoutError:
+                    return fail("read-hangs:expected-line", f"{where}: the pending read never returned the delivered message")
+                except Exception as err:  # noqa: BLE001
+                    return fail(f"read-raises:{type(err).__name__}:expected-line", f"{where}: {err!r}")
+                if got.rstrip("\n") != f"3;3;1;0;2;wake{idx}":
+                    return fail("read-wrong-line", f"{where}: pending read returned {got!r}")
             elif kind == "cancelled_read":
                 # the reading task is cancelled (shutdown, asyncio.timeout) after a few loop iterations: an entry it did not
                 # return stays owed to the next read - whatever point of read() the cancellation hit
